@@ -206,7 +206,7 @@ func c05PathWorld(c c05Case) *imp.World {
 var c05Families = []*family{
 	{name: "f", ctors: []string{"NewFile"}, paths: []string{"a/f", "b/f", "c/F", "x/f1", "y/f2", "z/1f", "w/pkg_f"},
 		names:   map[string]string{"a/f": "f", "b/f": "f", "c/F": "f", "x/f1": "f1", "y/f2": "f2", "z/1f": "f", "w/pkg_f": "pkg_f"},
-		aliases: []string{"f", "f1", "pkg_f", "pkg_f1"}, prefixes: []string{"pkg", "pkg_"}, maxRefs: 4, freeRefs: 4, wrappers: []int{0}, anon: false, oneDict: true},
+		aliases: []string{"f", "f1", "pkg_f", "pkg_f1"}, prefixes: []string{"pkg", "pkg_"}, maxRefs: 4, freeRefs: 4, wrappers: []int{0}, anon: false, oneDict: true, lateAlias: true},
 	{name: "rand", ctors: []string{"NewFile"}, paths: []string{"math/rand", "crypto/rand", "x/rand", "y/rand1", "z/rand2"},
 		names:   map[string]string{"x/rand": "rand", "y/rand1": "rand1", "z/rand2": "rand2"},
 		aliases: []string{"rand", "rand1"}, prefixes: []string{"p"}, maxRefs: 4, freeRefs: 4, wrappers: []int{0}, anon: true},
